@@ -11,8 +11,5 @@ Vec == [g |-> GJson(G),
 Emit == done => PrintT(<<"VEC", ToJson(Vec)>>)
 
 \* MC: two independent characterisations agree
-DefsAgree == done => /\ ProductiveByLang(G, LangN) = Productive(G)
-                     /\ NullableByLang(G) = Nullable(G)
-                     /\ (LeftRecursive(G) = {} /\ WellFormed(G)
-                           => \A A \in G.nts : LangAll(G, LangN)[A] # {})
+DefsAgree == done => DefsAgreeWithLang(G, LangN)
 =============================================================================
